@@ -132,6 +132,7 @@ def build_case(bdir, seed, kind, profile, casedir):
                 with_x = True
             c.expected = ("packfile", defaults, with_x)
         else:
+            treegen.host_materialisable(ents)
             treegen.emit_dir(ents, os.path.join(casedir, "tree"))
             opts += ["-D", "tree"]
             if prof.get("keep_time", True):
